@@ -730,10 +730,16 @@ def _is_version_or_help(tokens: list[str]) -> bool:
     if len(tokens) == 2 and tokens[1] in ("--version", "--help", "-h"):
         return True
 
+    # `git push --help`, `kubectl delete pod -h`: subcommand words, then the flag.
+    # A word that is an option, a file name or a program text (`rm -rf x -h`,
+    # `node x.js -h`, `awk '{...}' f -h`) makes it a real invocation.
     if tokens[-1] in ("--help", "-h") and len(tokens) <= 4:
-        return True
+        return all(_SUBCOMMAND_WORD.fullmatch(t) for t in tokens[1:-1])
 
     return False
+
+
+_SUBCOMMAND_WORD = re.compile(r"[A-Za-z][A-Za-z0-9_:-]*")
 
 
 def _get_word_value(word) -> str:
